@@ -1,6 +1,7 @@
 package run
 
 import (
+	"verif/pgsim"
 	"database/sql"
 	"fmt"
 	"reflect"
@@ -38,6 +39,10 @@ func (h *hist) exec(op Op) {
 	case "checkall":
 		h.checkAll()
 	case "insert":
+		if op.Miss && len(t.Uniques) > 0 && len(t.rows) > 0 {
+			h.insertDuplicate(t, g, op)
+			return
+		}
 		if t.Primary {
 			if !h.insertPrimary(t, g, 0) && h.viol == nil {
 				skip("no constraint-satisfying row")
@@ -725,6 +730,20 @@ func (h *hist) customQuery(t *tinfo, g *gen, op Op) {
 		lim = cp(row.FieldByName(q.Where3))
 		args = append(args, lim)
 	}
+	// the placeholders of the comment are $val$, $sel$ and $lim$: when the
+	// generated signature names its parameters after them, call by name
+	if names := h.prog.Params[q.Name]; len(names) == len(args) {
+		byName := map[string]reflect.Value{"val": nv, "sel": sel, "lim": lim}
+		named := []reflect.Value{h.db()}
+		for _, n := range names[1:] {
+			if v, ok := byName[n]; ok && v.IsValid() {
+				named = append(named, v)
+			}
+		}
+		if len(named) == len(args) {
+			args = named
+		}
+	}
 	_, err := h.call(q.Name, f, args...)
 	h.note("%s(%s, %s, ...) -> err=%v", q.Name, show(nv), show(sel), err)
 	if h.faulted() || !h.judgeErr(q.Name, err) {
@@ -866,6 +885,46 @@ func (h *hist) deleteLink(t *tinfo, op Op) {
 		h.out.Probe("skipped:no live row")
 		return
 	}
+	if op.Miss && len(t.fks) >= 2 {
+		// a link that is not stored, sharing one key with a stored one: the item
+		// keeps the first key of the picked row and takes another parent for the
+		// last non-nullable key; deleting it removes nothing
+		c := t.fks[len(t.fks)-1]
+		target := h.byName[c.FK]
+		if target != nil && !c.Nullable && len(target.rows) >= 2 {
+			item := own(t, row)
+			cur, _ := fkGet(row.FieldByName(c.Field))
+			for _, pr := range target.rows {
+				if id := target.idOf(pr); id != cur {
+					fkSet(item.FieldByName(c.Field), id, true)
+					break
+				}
+			}
+			stored := false
+			for _, r := range t.rows {
+				same := true
+				for _, k := range t.fks {
+					a, av := fkGet(r.FieldByName(k.Field))
+					b, bv := fkGet(item.FieldByName(k.Field))
+					if av != bv || (av && a != b) {
+						same = false
+					}
+				}
+				stored = stored || same
+			}
+			if !stored {
+				_, err := h.call(name, f, item, h.db())
+				h.note("%s(%s) -> err=%v (no such link)", name, show(item), err)
+				if h.faulted() || !h.judgeErr(name, err) {
+					return
+				}
+				h.out.Keys = append(h.out.Keys, "@call:delete-absent-link/"+t.Name)
+				// the model is unchanged; the next full check or select sees it
+				h.checkOne(t)
+				return
+			}
+		}
+	}
 	// only the foreign key fields of the item are used
 	_, err := h.call(name, f, row, h.db())
 	h.note("%s(%s) -> err=%v", name, show(row), err)
@@ -891,3 +950,47 @@ func (h *hist) deleteLink(t *tinfo, op Op) {
 }
 
 var _ = synth.TableInfo{}
+
+// insertDuplicate tries to store a row that repeats a unique key of a stored
+// one: the schema must refuse it. The generated code relies on that
+// uniqueness (single-row lookups, collapsing By<F>() maps): a schema without
+// the constraint and code that assumes it do not agree.
+func (h *hist) insertDuplicate(t *tinfo, g *gen, op Op) {
+	u := t.Uniques[op.Arg%len(t.Uniques)]
+	src, _, _ := h.pick(t, op.Pick)
+	for _, f := range u {
+		// (a NULL in the key makes the rows distinct for PostgreSQL)
+		if c := t.Column(f); c != nil && c.Nullable {
+			if _, valid := fkGet(src.FieldByName(f)); !valid && c.Kind == "fk" {
+				return
+			}
+			if c.Kind != "fk" && src.FieldByName(f).IsZero() {
+				return
+			}
+		}
+	}
+	before := h.synced
+	row, ok := h.newRow(t, g, 0, -1, 0)
+	if !ok || h.synced != before {
+		return
+	}
+	for _, f := range u {
+		row.FieldByName(f).Set(src.FieldByName(f))
+	}
+	name := t.Name + ".Insert"
+	_, err := h.call(name, h.mustFn(name), row, h.db())
+	h.note("%s(%s) -> err=%v (repeats the unique key %v of a stored row)", name, show(row), err, u)
+	if h.faulted() {
+		return
+	}
+	if err == nil {
+		h.fail("unique_key_not_enforced", "%s stored a second row with the key %v of a stored row: the generated code treats these columns as unique (comment of the table), the generated schema does not enforce it\n  stored: %s\n  added:  %s", name, u, show(src), show(row))
+		return
+	}
+	var pe *pgsim.Error
+	if !asPgErr(err, &pe) || pe.Class != "constraint" {
+		h.judgeErr(name, err)
+		return
+	}
+	h.out.Keys = append(h.out.Keys, "@call:insert-duplicate-refused/"+t.Name)
+}
